@@ -189,7 +189,20 @@ def c05(run):
                 "document, half documents, single bytes, random); at every read request TLC requires delivered - written <= 2 (XtObs!ObsRead); "
                 "distinct by stream, target, schedule and source selection")
     run.assumptions += OBS_ASSUME
-    obs_stage(run, "lag", _q(run, 8, 150), ["C05"], "bounded lag at every read request, 3 streaming sources x 3 targets x 6 packetisations x explicit/detected")
+    obs_stage(run, "lag", _q(run, 9, 150), ["C05"], "bounded lag at every read request, 3 streaming sources x 3 targets x 6 packetisations x explicit/detected")
+    # memory half: measured peak heap growth, N vs 4N documents, judged by spec/XtMem.tla
+    path = os.path.join(WORK, "trace_C05_mem_%s.ndjson" % run.tier)
+    summ = run_xtv(["record-mem", path, _q(run, 20000, 400000), _q(run, "100,3000", "40,100,3000,200000")], timeout=3000)
+    run.add_harness(summ, "peak live heap while translating N and 4N documents through a lazily generating reader (3 sources x explicit/detected x 3 targets x document sizes)")
+    r = common.validate_trace("XtMem.tla", "XtMem.cfg", path, tag="XtMem-C05")
+    if not r["accepted"]:
+        info = json.loads(common.tlc_printed(r["out"], "REJECTJSON")[0])
+        lines = open(path).read().splitlines()
+        ctx = [json.loads(x) for x in lines[max(0, info["line"] - 3):info["line"]]]
+        run.violation("memory: measured run is not a behaviour of XtMem (peak heap exceeds the bound or grows with the stream length): %s" % json.dumps(ctx),
+                      {"kind": "xtmem-trace", "records": ctx})
+    run.add_traces(summ["evaluations"], r, "XtMem: Bounded and NoGrowth over measured runs")
+    run.assumptions.append("memory is a measured scalar (counting global allocator in the harness process); XtMem bounds it: peak <= 2 MiB + 100 x largest document, and peak(4N) <= 1.25 peak(N) + 1 MiB")
 
 
 def c08(run):
